@@ -201,15 +201,48 @@ Definition pc_exec (cfg : config) (t0 : Z) (pre post : dump) (e : event) (o : li
   end.
 
 (* the monitor state after the event, and the list of components in the order [p_step] reports them *)
+(* an accepted completion report ends the assignment the retry counter was about *)
+Definition pm_clear (pre : dump) (e : event) (m : mon) : mon :=
+  match e with
+  | EStartSync _ a _ =>
+    match y_state a, find_dworker pre (w_sk (y_worker a)) (wid (y_worker a)) with
+    | WCompleted d _, Some k =>
+      match dw_task k with
+      | Some ops0 =>
+        if existsb (fun o => existsb (Nat.eqb (do_name o)) ops0 && (do_digest o =? d)%N) (d_ops pre)
+        then m <| m_reissue := adel wref_eqb (y_worker a) (m_reissue m) |> else m
+      | None => m
+      end
+    | _, _ => m
+    end
+  | _ => m
+  end.
+Lemma pm_clear_eq : forall pre e m, pm_clear pre e m = m <| m_reissue := m_reissue (pm_clear pre e m) |>.
+Proof.
+  intros pre e m. unfold pm_clear. destruct e; try (destruct m; reflexivity).
+  destruct (y_state a); try (destruct m; reflexivity). destruct (find_dworker _ _ _) as [k|]; [|destruct m; reflexivity].
+  destruct (dw_task k); [|destruct m; reflexivity]. destruct (existsb _ _); destruct m; reflexivity.
+Qed.
+(* every entry follows its task through the post dump; an entry whose worker no longer holds the task is dropped *)
+Definition pm_follow (post : dump) (m : mon) : mon :=
+  m <| m_reissue := flat_map (fun '(w, (ops0, n)) =>
+                               match find_dworker post (w_sk w) (wid w) with
+                               | Some k => match dw_task k with
+                                           | Some ops' => if shares_op ops0 ops' then [(w, (ops', n))] else []
+                                           | None => []
+                                           end
+                               | None => []
+                               end) (m_reissue m) |>.
 Definition pm_final (cfg : config) (pre post : dump) (e : event) (o : list obs) (m : mon) : mon :=
-  let m3 := pm3 post e o m in
-  pm_terms post e (fst (retry_step cfg post e o (rereq pre e m3) m3)).
+  let mc := pm_clear pre e (pm3 post e o m) in
+  pm_terms post e (pm_follow post (fst (retry_step cfg post e o (rereq pre e mc) mc))).
 Definition p_components (cfg : config) (t0 : Z) (m : mon) (pre : dump) (e : event) (o : list obs) (post : dump) : list string :=
   let m3 := pm3 post e o m in
+  let mc := pm_clear pre e m3 in
   let mf := pm_final cfg pre post e o m in
   [pc_panic o; c01_dump post; pc_sync post e o m3; pc_stream post e o m; pc_lost cfg pre post m; pc_cancel pre post e m;
    c03_dump post; c03_waited post; c04_dump post; pc_exec cfg t0 pre post e o; c05_assign pre post;
-   c06_dump mf post; c06_final mf post; pc_arm cfg pre post e o m m3; snd (retry_step cfg post e o (rereq pre e m3) m3); pc_early cfg pre post (rereq pre e m3);
+   c06_dump mf post; c06_final mf post; pc_arm cfg pre post e o m m3; snd (retry_step cfg post e o (rereq pre e mc) mc); pc_early cfg pre post (rereq pre e mc);
    pc_learn e o m; c07_background post; c07_learners_match mf post; pc_gone post e o m; pc_term post mf;
    c05_retry (m_learners (pm1 e o m)) pre post e o].
 
@@ -220,9 +253,9 @@ Proof.
   fold (pm1 e o m).
   destruct (fold_left c07_ghost o (m_learners (pm1 e o m), ""%string)) as [ls el] eqn:E1. cbn [fst snd].
   destruct (fold_left (c02_obs post) o (pm1 e o m <| m_learners := ls |>, ""%string)) as [m3 es] eqn:E2. cbn [fst snd].
-  fold (rereq pre e m3). fold (retry_step cfg post e o (rereq pre e m3) m3).
-  destruct (retry_step cfg post e o (rereq pre e m3) m3) as [m4 er] eqn:E3. cbn [fst snd].
-  fold (pm_terms post e m4). reflexivity.
+  fold (pm_clear pre e m3). fold (rereq pre e (pm_clear pre e m3)). fold (retry_step cfg post e o (rereq pre e (pm_clear pre e m3)) (pm_clear pre e m3)).
+  destruct (retry_step cfg post e o (rereq pre e (pm_clear pre e m3)) (pm_clear pre e m3)) as [m4 er] eqn:E3. cbn [fst snd].
+  fold (pm_follow post m4). fold (pm_terms post e (pm_follow post m4)). reflexivity.
 Qed.
 
 (* the last steps only touch m_reissue and m_terms *)
@@ -238,5 +271,5 @@ Lemma pm_final_frame : forall cfg pre post e o m,
   m_streams mf = m_streams m3 /\ m_syncs mf = m_syncs m3 /\ m_supplied mf = m_supplied m3 /\ m_learners mf = m_learners m3 /\
   m_live mf = m_live m3 /\ m_lastsync mf = m_lastsync m3.
 Proof.
-  intros cfg pre post e o m m3 mf. unfold mf, pm_final. cbv zeta. rewrite pm_terms_eq, retry_step_eq. cbn. repeat split; reflexivity.
+  intros cfg pre post e o m m3 mf. unfold mf, pm_final. cbv zeta. rewrite pm_terms_eq. unfold pm_follow. rewrite retry_step_eq, pm_clear_eq. cbn. repeat split; reflexivity.
 Qed.
